@@ -260,8 +260,12 @@ def equalValueTo (a c : Val) : Bool :=
 def containsVal (container item : Val) : Bool :=
   match container.resolved with
   | .struct _ fields priv => (fields.lookup item.toS).isSome || priv.elem item.toS
-  | .smap _ kvs => (match item with | .str k => (kvs.lookup k).isSome | _ => false)
-  | .imap _ kvs => (match item with | .int k => (kvs.lookup k).isSome | _ => false)
+  -- the key as `mapKey` takes it (fix 0f…): one pointer followed, the same text / integer under another Go type
+  | .smap _ kvs => (match item.resolved with | .str k | .stringer (.str k) _ => (kvs.lookup k).isSome | _ => false)
+  | .imap _ kvs => (match item.resolved with
+      | .int k | .stringer (.int k) _ => (kvs.lookup k).isSome
+      | .uint u => u.toNat < 2 ^ 63 && (kvs.lookup (Int64.ofNat u.toNat)).isSome
+      | _ => false)
   | .str s => Bytes.contains s item.toS
   | .list _ xs | .arr _ xs => xs.any fun x =>
       -- the items of an in-template list literal are `*Value` already and are compared as they are
@@ -570,8 +574,13 @@ def stepSub (cv : Val) (k : Val) : Except String (Option Val) :=
     -- (a subscript that is no number is no index: nothing there — not element 0)
     if indexLike k then (match seqAt cv k.toInt with | some r => .ok r | none => .ok none) else .ok none
   | .struct _ fields _ => .ok (fields.lookup k.toS)
-  | .smap _ kvs => .ok (match k with | .str key => kvs.lookup key | _ => none)
-  | .imap _ kvs => .ok (match k with | .int key => kvs.lookup key | _ => none)
+  -- `mapKey`: the same text or integer under another Go type is the key too (fix 28b29b7);
+  -- an unsigned value beyond the range of the map's `int` keys is no key
+  | .smap _ kvs => .ok (match k with | .str key | .stringer (.str key) _ => kvs.lookup key | _ => none)
+  | .imap _ kvs => .ok (match k with
+      | .int key | .stringer (.int key) _ => kvs.lookup key
+      | .uint u => if u.toNat < 2 ^ 63 then kvs.lookup (Int64.ofNat u.toNat) else none
+      | _ => none)
   | _ => .error "can't access an index on this type"
 
 /-! ### the escape-on-output decision (`nodeVariable.Execute`, `writeCycleValue`) -/
